@@ -474,7 +474,7 @@ impl CaseDriver for C14 {
     fn describe(&self, tier: Tier) -> Describe {
         Describe {
             rule: format!(
-                "{} cells forming EVERY DAG (every subset of the edges i -> j, i < j, each edge an instance) listed in EVERY order; the last cell with layout / layout+abstract / abstract-only views (all free); costed (deviation bound {}): units Nano/Micro/Angstrom, abstract view on the other cells, each instance's orientation (8) and offset (incl. 2e9), a second placement with angle Some(0), the layout's shape set (default: 7 shapes of all three kinds with and without nets interleaved over 2 layers x 2 purposes; none; one rectangle; all on one layer/purpose with a reversed-corner rectangle; clockwise polygon + negative rectangle), annotations 1/0/2, abstract ports 1/0/2 (second port on two layers), blockages on 1/0/2 layers, outline rectangle / L. Each case is checked raw->proto->raw (fresh and original Layers) and proto->raw->proto (message built independently by the harness). Non-trivial = has an instance or an abstract.",
+                "{} cells forming EVERY DAG (every subset of the edges i -> j, i < j, each edge an instance) listed in EVERY order; the last cell with layout / layout+abstract / abstract-only views or no view at all (a placeholder cell) (all free); costed (deviation bound {}): units Nano/Micro/Angstrom, abstract view on the other cells, each instance's orientation (8) and offset (incl. 2e9), a second placement with angle Some(0), the layout's shape set (default: 7 shapes of all three kinds with and without nets interleaved over 2 layers x 2 purposes; none; one rectangle; all on one layer/purpose with a reversed-corner rectangle; clockwise polygon + negative rectangle; rectangles given by every pair of opposite corners, a degenerate rectangle, an explicitly closed polygon and a path returning to its start), annotations 1/0/2, abstract ports 1/0/2 (second port on two layers), blockages on 1/0/2 layers, outline rectangle / L. Each case is checked raw->proto->raw (fresh and original Layers) and proto->raw->proto (message built independently by the harness). Non-trivial = has an instance or an abstract.",
                 if self.four { "4".to_string() } else { "1..3".to_string() },
                 self.bound(tier)
             ),
